@@ -231,10 +231,12 @@ def check_sub(x, g, lb, ub, mats, xcp, it=1):
         out.append(("sub_model_increase", dict(mb=mb, mc=mc)))
     if F.pgnorm(x_in, g_in, lb, ub) > 0 and not float(g_in @ (xb - x_in)) < 0:
         out.append(("not_descent", dict(gd=float(g_in @ (xb - x_in)))))
-    # the point stays in the box up to rounding of the last operation (exactness is C02's)
-    tol = 1e-12 * (1 + np.abs(xb))
-    if (xb < lb - tol).any() or (xb > ub + tol).any():
-        out.append(("sub_infeasible", dict(xb=xb)))
+    # "truncated by the largest factor <= 1 that keeps the point in the box": exactly.  A
+    # point one ulp beyond a bound gives a direction with a zero maximum feasible step on
+    # the next line search (spurious failure, memory wipe or abnormal termination).
+    if (xb < lb).any() or (xb > ub).any():
+        out.append(("sub_infeasible", dict(xb=xb, excess=float(np.max(np.maximum(lb - xb,
+                                                                                 xb - ub))))))
     return out, len(fr)
 
 
